@@ -555,6 +555,88 @@ fn case_json(w: &World, si: usize, op: Op, ii: usize) -> J {
         .with("world_tier", J::s(w.tier.name()))
 }
 
+/// Build, search and drop `n` small searchers that have nothing to do with the
+/// world under test. They come from a family of six pattern sets with the
+/// same trie shape but different bytes (so that equal state offsets mean
+/// different things in different searchers), and every one of their results
+/// is compared with the definition: a searcher's results may depend neither on
+/// the searchers built before it nor on their searches. Returns (built,
+/// first mismatch description).
+pub fn unrelated_activity(_seed: u64, n: usize) -> (u64, Option<String>) {
+    use crate::oracle::Oracle;
+    const L: &[u8] = b"abcdef";
+    let sets: Vec<Vec<Vec<u8>>> = (0..6)
+        .map(|k| vec![vec![b'x', L[k], b'y'], vec![L[k], L[(k + 1) % 6]], vec![L[(k + 2) % 6]]])
+        .collect();
+    let hays: Vec<Vec<u8>> = (0..6)
+        .flat_map(|j| {
+            vec![
+                vec![b'x', L[j], L[(j + 1) % 6]],
+                vec![b'x', L[j], b'y', L[j]],
+                vec![b'q', b'x', L[j], L[j], L[(j + 1) % 6]],
+            ]
+        })
+        .collect();
+    // contiguous NFAs are over-represented: they are the automatic choice for
+    // most real pattern sets
+    let imps = [Imp::TopCnfa, Imp::LowCnfa, Imp::TopCnfa, Imp::LowDfa, Imp::LowNnfa, Imp::LowCnfa, Imp::TopDfa];
+    // Long-lived witnesses: built once per process and searched again (and
+    // checked) between the fresh builds, so that whatever they leave behind
+    // in process-wide state is always recent when a fresh searcher runs, and
+    // vice versa.
+    static WITNESSES: std::sync::OnceLock<Vec<(usize, Kind, S)>> = std::sync::OnceLock::new();
+    let witnesses = WITNESSES.get_or_init(|| {
+        let mut v = vec![];
+        for r in 0..10 {
+            for k in 0..6 {
+                let kind = Kind::ALL[(r + k) % 3];
+                let imp = [Imp::TopCnfa, Imp::LowCnfa, Imp::LowDfa, Imp::LowNnfa][r % 4];
+                if let Ok(s) = Cfg::new(imp, kind).pre(false).build(&sets[k]) {
+                    v.push((k, kind, s));
+                }
+            }
+        }
+        v
+    });
+    let mut built = 0u64;
+    let mut first_bad = None;
+    let check = |what: &str, label: String, k: usize, kind: Kind, s: &S, hay: &[u8], first_bad: &mut Option<String>| {
+        let got = s.try_find(Input::new(hay)).ok().flatten();
+        let exp = Oracle::new(&sets[k], false, kind).find(hay, 0, hay.len(), false);
+        if got != exp && first_bad.is_none() {
+            *first_bad = Some(format!(
+                "{} {} for patterns {:?} returned {:?} on {:?}, the definition gives {:?}",
+                what,
+                label,
+                sets[k].iter().map(|p| String::from_utf8_lossy(p).to_string()).collect::<Vec<_>>(),
+                got,
+                String::from_utf8_lossy(hay),
+                exp
+            ));
+        }
+    };
+    for i in 0..n {
+        // a long-lived witness first ...
+        if !witnesses.is_empty() {
+            let (wk, wkind, ws) = &witnesses[i % witnesses.len()];
+            let hay = &hays[(i / witnesses.len()) % hays.len()];
+            check("long-lived searcher", format!("#{}", i % witnesses.len()), *wk, *wkind, ws, hay, &mut first_bad);
+        }
+        // ... then a fresh one
+        let k = i % 6;
+        let kind = Kind::ALL[(i / 6) % 3];
+        let cfg = Cfg::new(imps[i % imps.len()], kind).pre(false);
+        let s = match cfg.build(&sets[k]) {
+            Ok(s) => s,
+            Err(_) => continue,
+        };
+        built += 1;
+        let hay = &hays[(i / 18) % hays.len()];
+        check("fresh searcher number", format!("{} ({})", i, cfg.label()), k, kind, &s, hay, &mut first_bad);
+    }
+    (built, first_bad)
+}
+
 /// The whole history check; used by the native, TSan and Miri stages and by
 /// the purity binary (which passes hooks to announce the op in flight).
 pub fn history_check(
@@ -594,6 +676,25 @@ pub fn history_check(
     rep.evals(before.len() as u64);
     announce("concurrent", 0, Op::Find, 0);
     let events = concurrent(w, &pl, with_clones);
+    // Unrelated activity between the passes: tens of thousands of other small
+    // searchers of every kind are built, searched and dropped (a searcher's
+    // results may not depend on what happens to *other* searchers either,
+    // e.g. through process-wide tables keyed by build counters).
+    if !cfg!(miri) {
+        announce("unrelated-activity", 0, Op::Find, 0);
+        // (sanitizer builds are several times slower: the driver sets ACMON_LIGHT there)
+        let light = std::env::var("ACMON_LIGHT").is_ok();
+        let (n, bad) = unrelated_activity(seed, if light { 3000 } else { w.tier.pick(200, 70_000, 140_000) });
+        rep.tally_n("unrelated_searchers_built", n);
+        rep.evals(n);
+        if let Some(d) = bad {
+            rep.violation(
+                "history:unrelated_searcher_wrong_result",
+                format!("a freshly built searcher gave a wrong result after many other searchers had been built and used: {}", d),
+                J::obj().with("seed", J::u(seed)).with("world_seed", J::u(w.seed)).with("world_tier", J::s(w.tier.name())),
+            );
+        }
+    }
     announce("sequential-after", 0, Op::Find, 0);
     let after = sequential_table(w, &keys, &mut |si, op, ii| announce("sequential-after", si, op, ii));
     rep.evals(after.len() as u64);
